@@ -30,13 +30,19 @@ LEVEL_TEXT = (
     "r = cutoff below, and equals -4 pi sum rho_lm Y_lm when the components solve the posed radial problems; in the molecular fan-out the term "
     "of atom i uses the grid and the slice of atom i (Python closure rules recorded by the translator); robust total = core potential + "
     "potential of the residual, exact when the density is the core model; the reference potential solves the posed l = 0 problem exactly. "
+    "Round 3: robust_poisson.py is regenerated statement by statement (strict walker: an added / removed / reordered statement is an unsupported shape): "
+    "_build_core_density is sum c_k rho_s(alpha_k, |p - c|) with C17's density; what _fit_residual_gaussians subtracts is exactly the density of the Gaussians it returns "
+    "(for every answer of nnls), each basis function being C17's density, so total = core + bonding + residual potential is exact for an exact solve (robust_split2); the guards "
+    "accept exactly 1-D densities of the grid's length, non-empty positive 1-D bases, (N, 3) points, and the default basis passes them; for poisson.py the type guards, the domain "
+    "guard, the mesh rule (a point equal to remove_large_pts stays), the 1e-300 and r == 0 windows, the r_interval guard and default, the i_spline bookkeeping, the harmonic degree, "
+    "the AtomGrid wrap and the agreement of the public and per-atom defaults are theorems about the regenerated text. "
     "Tie to the code: translator + interception of every call the library makes into grid.ode (mesh, right-hand side, coefficients, boundary / "
     "initial data, options) and evaluation of interpolate_laplacian on random atomic / molecular grids, compared with the Lean model through the driver."
 )
 TECHNIQUE = ("exploration against a Lean-proved analytic reference (C17) + Lean 4 / Mathlib reduction lemmas about the AST-regenerated "
              "posed problems + differential correspondence by intercepting the calls into grid.ode")
-GEN = ["poisson", "coulomb"]
-LEAN_MODULES = ["GridVerif.Props.C16", "GridVerif.Props.C16.Laplacian"]
+GEN = ["poisson", "poisson_robust", "coulomb"]
+LEAN_MODULES = ["GridVerif.Props.C16", "GridVerif.Props.C16.Laplacian", "GridVerif.Props.C16.Robust", "GridVerif.Props.C16.Options"]
 THEOREMS = [
     "GridVerif.C16.posed_bvp_eq",
     "GridVerif.C16.posed_ivp_eq",
@@ -72,6 +78,33 @@ THEOREMS = [
     "GridVerif.C16.lap_fanout_eq",
     "GridVerif.C16.lap_molecular_slice_full",
     "GridVerif.zero_of_second_deriv_eq_pos_mul",
+    # round 3: robust_poisson.py statement by statement (Props/C16/Robust.lean)
+    "GridVerif.C16.robust_gen2_eq",
+    "GridVerif.C16.robust_structure",
+    "GridVerif.C16.core_step_eq",
+    "GridVerif.C16.core_density_eq",
+    "GridVerif.C16.core_density_is_c17",
+    "GridVerif.C16.fit_basis_is_c17",
+    "GridVerif.C16.fit_atom_conserves",
+    "GridVerif.C16.fit_conserves",
+    "GridVerif.C16.fit_mask_drops_zeros",
+    "GridVerif.C16.robust_split2",
+    "GridVerif.C16.total_eq",
+    "GridVerif.C16.robust_guards",
+    "GridVerif.C16.default_basis_admissible",
+    # round 3: options, guards, thresholds, bookkeeping of poisson.py (Props/C16/Options.lean)
+    "GridVerif.C16.options_gen_eq",
+    "GridVerif.C16.options_structure",
+    "GridVerif.C16.public_defaults_agree",
+    "GridVerif.C16.type_guards_spec",
+    "GridVerif.C16.bvp_domain_guard",
+    "GridVerif.C16.rad_points_mem_iff",
+    "GridVerif.C16.bvp_value_window",
+    "GridVerif.C16.coeff0_origin_window",
+    "GridVerif.C16.ivp_interval_spec",
+    "GridVerif.C16.spline_index_position",
+    "GridVerif.C16.harm_rows_match",
+    "GridVerif.C16.mol_atomgrid_route",
 ]
 
 # ----------------------------------------------------------------------------------------------
@@ -125,7 +158,21 @@ RULE = (
     "robust residual / core density / total are compared with the Lean model (driver); interpolate_laplacian(grid, f)(points, cutoff) on random atomic and 2-3-atom "
     "molecular grids (equal / different atomic sizes, AtomGrid vs one-atom MolGrid route, store=False rejected) at random points, at a centre, inside / exactly at / just above "
     "the cutoff, cutoffs {default, 1e-6, 1e-3, 0.5, 1e-8, 2^-10}, batch vs single point, caller's points unchanged: the model gets rho_lm, rho_lm', rho_lm'' from "
-    "radial_component_splines at the model's clamped radius and Y_lm from generate_real_spherical_harmonics, rtol 1e-12 of the largest term. Non-trivial = a case with at least 4 radial "
+    "radial_component_splines at the model's clamped radius and Y_lm from generate_real_spherical_harmonics, rtol 1e-12 of the largest term. "
+    "Round 3 (AGENT_ROUND3 classes 7-13), envelopes measured on the pinned tree and written next to the cases: [7] coefficient functions at r in {0, -0, 5e-324, 1e-300, 1e-12, 1e-10/1.01, 1e-10, 1.01e-10, 1e-8}, "
+    "interpolants at 1e-300 x {1/1.01, 1, 1.01, 1e-2, 1e2} from a centre at the origin, remove_large_pts = radial point x {1, 1.01, 1/1.01, 100, 1/100}, radial points {1e4, 1e6/1.01, 1e6, 1.01e6, 1e8} under the default, "
+    "first radial point {0, -0, 5e-324, 1e-300, 1e-10}, domain[0] in {-1 .. -5e-324, -0, 0, 5e-324 ..}, r_interval equal / 1 % apart / default; oracle: first radial point {0, 1e-300, 1e-12, 0.99e-10, 1e-10, 1.01e-10, 1e-8} "
+    "(ValueError accepted below 1e-11), r_interval x {0.99, 1.01, 1e-2, 1e2} of (1000, 1e-5) on GaussLegendre(120..160) o Becke(1e-6, 1.5) degree 3 and default == (1000, 1e-5) given, boundary shift dB Y00/hi with "
+    "hi = largest point <= remove_large_pts x {1, 1.01, 1/1.01}, interpolate_laplacian at 1e-6 x {0.01, 0.5, 1/1.01} (= value at radius 1e-6) and x {1.01, 100} (= unclamped); [8] |V[a rho] - a V| <= max(1e-2 |a| Q, floor): "
+    "bvp floor 1e-8 for a in {1e-300, 1e-50, 1e-12..1e-6} (observed 3e-10), ivp floor 1e-4 (observed 1.5e-5: for |a| <= 1e-9 the ivp answer is up to 1e6 x too large relative to a Q, inside its absolute tolerance), ivp |a| up to 1e8 "
+    "(thorough 1e100) relative 1e-2 (observed 3e-4), L[2^k f] = 2^k L[f] to 1e-12 for k in {-900, -166, .., 900}; translation of grid, density and points by (+-2^10..14, 0, +-2^7..11) and (+-2^17|20, +-2^17|20, ..): solvers within "
+    "1e-4 Q of the untranslated answer (observed bvp 8e-11, ivp 6.5e-5) and 1e-2 Q of the analytic one, Laplacian 1e-5 relative, molecular bvp 1e-4 Q; [9] arrays returned by the callables overwritten by the caller, density / atnums "
+    "buffers reused after the solve: later evaluations unchanged to 1e-10 (the closure of solve_poisson_robust keeps views of the rows of atcoords: reported, replayed only when listed); [10] cutoffs 0.3 / 0.1 and include_origin "
+    "True / False alternating on one object; [11] first call on a fresh grid object with non-default options == the same call on a used object; [12] centre off the origin with a rotated frame (rotate seed): points on radial "
+    "shells along +-z, +-x, y, the Cartesian origin, the centre itself (finite); grids with 2..5 radial points in the correspondence; [13] additivity off-centre / molecular (bvp, bound 1e-4 per unit charge, observed 3e-7), "
+    "ivp additivity 5e-4 per unit charge (observed 8.3e-5: its accuracy level), molecular amplitude homogeneity 1e-5..1e3 (observed <= 0.1 of the bound), robust split2=True on 2-atom molecules with remove_large_pts in 40..100 or 1e6, "
+    "include_origin=False and the basis [0.3, 1, 3, 9, 27] (observed <= 0.55 of the threshold; remove_large_pts 25: up to 1.5, 10: up to 11 -- outside; with the DEFAULT 20-exponent basis 0.04 .. 2.0 and "
+    "RuntimeError from scipy's nnls in ~10 % of random molecules -- outside, reported), robust split2 with the density inside core model + basis: exact to 1e-6 (observed 2e-9). Non-trivial = a case with at least 4 radial "
     "problems (l_max//2 >= 1) and a non-zero density"
 )
 TRUSTED_BASE = [
@@ -133,6 +180,8 @@ TRUSTED_BASE = [
     "C17 (GridVerif.C17.s_solves_poisson, s_far, s_closed_form_is_coulomb_integral): erf(sqrt(a) r)/r is the Coulomb potential of (a/pi)^{3/2} e^{-a r^2}",
     "translator harness/translate/poisson.py (AST fragments -> scalar Lean definitions, incl. interpolate_laplacian: clamp, derivative orders, einsum shapes, degrees "
     "comprehension, closure binding of the per-atom lambda); validated at Float against the intercepted callables / the real interpolate_laplacian on every run",
+    "translator harness/translate/poisson_robust.py (robust_poisson.py statement by statement: numeric text -> scalar definitions, guards -> decidable predicates, plumbing -> records pinned by "
+    "robust_structure) and hand model Model/PoissonRobust.lean (row sums, strict zip, mask selection, matrix-vector product, accumulators, geomspace, isinstance table); scipy.optimize.nnls enters as a recorded answer",
     "hand model Model/Poisson.lean (mesh options, (l,m) sequence, sums, slices, robust folds, the three contractions of laplacianAt), tied by correspondence",
     "the separated form of the Laplacian in spherical coordinates and the eigenfunction property of Y_lm are definitions / named hypotheses, not theorems",
     "scipy.special.erf as the numerical value of the reference; SciPy solve_bvp / solve_ivp, CubicSpline, nnls are exercised, not modelled",
@@ -204,7 +253,7 @@ def run(spec):
     np.random.seed(spec.get('npseed', 0))          # solve_ode_bvp draws its initial guess from the global state
     radial, tf, inv, AtomGrid = _grid_parts(spec['grid'])
     centers = [np.asarray(c, dtype=float) for c in spec['atoms']]
-    atgrids = [AtomGrid(radial, degrees=[spec['grid']['deg']], center=c) for c in centers]
+    atgrids = [AtomGrid(radial, degrees=[spec['grid']['deg']], center=c, rotate=spec['grid'].get('rotate', 0)) for c in centers]   # rotate != 0: a randomly rotated angular frame per shell
     if len(atgrids) == 1:
         mg = atgrids[0]
     else:
@@ -256,6 +305,13 @@ def run(spec):
         V = solve_poisson_robust(mg, rho, inv, np.array(spec['atnums']), np.array(centers),
                                  split2=spec.get('split2', False), alphas_basis=ab, **kw)
         err = float(np.max(np.abs(V(pts) - _ref(pts, g))))
+        if spec.get('exact_fit'):
+            # density = core model + members of the split-2 basis: the fit is exact, only the numerical solve of a ~zero residual remains; the same array
+            # solved again without the second split is an ordinary smooth residual (accuracy threshold)
+            V2 = solve_poisson_robust(mg, rho, inv, np.array(spec['atnums']), np.array(centers), split2=False, **kw)
+            err2 = float(np.max(np.abs(V2(pts) - _ref(pts, g))))
+            return max(err / spec['exact_core_atol'], err2 / (spec['atol_unit'] * sum(abs(c) for c, _, _ in g))), 1.0, \
+                'robust solver, split2 with the density inside core model + basis: |V - analytic| / 1e-6, and split1 on the same array / accuracy threshold'
         if spec.get('vs_plain'):
             # "agrees with the plain solver on smooth densities": same grid, same tabulated density, same options; both are
             # accurate to ~5e-4 here, so their difference is held to 0.3 of the accuracy threshold
@@ -297,6 +353,24 @@ def run(spec):
             t = np.array([0.5, 1e-3, 0.999, 0.1, 1.0, 1e-6] * 2)
             inside, on = centers[0] + u * (t * cut)[:, None], centers[0] + u * cut
             err = max(err, float(np.max(np.abs(L(inside, cut) - lap(on)))) / scale)
+        if len(centers) == 1 and spec.get('near_default'):
+            # both sides of the DEFAULT cutoff 1e-6 (factors 1.01 and 100): a point inside it is evaluated at radius 1e-6 in its own
+            # direction, a point outside it is not clamped (same value as with an explicit, much smaller cutoff).  Near the centre the
+            # terms 2 rho'/r and l(l+1) rho/r^2 are individually ~1/r, so the comparison is between two evaluations of the library
+            # (relative to the largest of them), not with the closed form.
+            u = rng.normal(size=(6, 3))
+            u /= np.linalg.norm(u, axis=1)[:, None]
+            c0 = centers[0]
+            on = L(c0 + u * 1e-6, 1e-6)
+            # at 1e-6 from the centre the value is dominated by the amplified rounding noise of the l > 0 components (1e4 on a rotated degree-17 grid, true
+            # value -6a): the comparison is relative to the largest of the six values; the direction of c0 + t u differs from u by ~1e-8 (rounding): observed <= 7e-8
+            far = max(float(np.max(np.abs(on))), scale)
+            for t in (0.01, 1.0 / 1.01, 0.5):
+                err = max(err, spec['lap_rtol'] * float(np.max(np.abs(L(c0 + u * (t * 1e-6)) - on)) / far) / 1e-5)
+            for t in (1.01, 100.0):
+                out = c0 + u * (t * 1e-6)
+                ref_out = L(out, 1e-12)
+                err = max(err, spec['lap_rtol'] * float(np.max(np.abs(L(out) - ref_out) / np.maximum(np.abs(ref_out), scale))) / 1e-9)
         return err, spec['lap_rtol'], 'interpolate_laplacian vs closed form (and points inside the cutoff vs the closed form at r = cutoff), max error / ((4l+6) a max|f|)'
     if kind == 'laplacian-mol':
         # structural clause: the molecular Laplacian is the sum over atoms A of the one-atom Laplacian interpolants of
@@ -697,10 +771,276 @@ def inv_extreme(I):
     I.same('bvp on a radial grid with a point at r = 0: include_origin True vs False', vs[0], vs[1])
 
 
+# ---- round 3 (AGENT_ROUND3 classes 7-13) --------------------------------------------------------------------------------------
+def _shift_gauss(gs, c):
+    return [(a, al, [float(x) for x in (np.asarray(R, dtype=float) + c)]) for a, al, R in gs]
+
+
+def inv_translate(I):
+    """class 8: centres / coordinates far from the origin (exactly representable shifts 2^k): every answer is translation invariant"""
+    sp = I.spec
+    Z = [0.0, 0.0, 0.0]
+    gs = [tuple(x) for x in sp['gauss']]
+    q = sum(abs(c) for c, _, _ in gs)
+    pts0 = np.round(I.points([Z], k=30) * 2.0 ** 20) / 2.0 ** 20       # multiples of 2^-20: pts0 + shift is exact for shifts up to 2^32
+
+    def at(shift, kind):
+        c = np.array(shift, dtype=float)
+        g = I.grid([float(x) for x in c])
+        gg = _shift_gauss(gs, c)
+        if kind == 'robust':
+            gg = _shift_gauss(_core('H', Z), c) + gg
+        rho = _rho(g.points, gg)
+        p = pts0 + c
+        if kind == 'lap':
+            return I.lap(g, rho)(p), gg, p
+        if kind == 'robust':
+            np.random.seed(7)
+            return I.robust(g, rho, I.inv, np.array([1]), np.array([c]), remove_large_pts=10.0)(p), gg, p
+        return I.solve(kind, g, rho)(p), gg, p
+
+    for kind in ('bvp', 'ivp', 'robust', 'lap'):
+        v0, g0, p0 = at(Z, kind)
+        qq = sum(abs(c) for c, _, _ in g0)
+        if kind != 'lap':
+            I.chk(f'{kind} at the origin vs analytic potential', np.max(np.abs(v0 - _ref(p0, g0))), sp['atol_unit'] * qq)
+        for shift in sp['shifts']:
+            v, gg, p = at(shift, kind)
+            if kind == 'lap':
+                # the grid forms the angles of its own points from rounded Cartesian coordinates: relative angle error eps |centre| / r_first (2e-7 at 2^20 with r_first = 1e-3) enters
+                # the l > 0 components and is amplified by the spline's second derivative: observed <= 1.7e-8 up to 2^17, 1.2e-5 at 2^20 (measured on the pinned tree)
+                tol = 1e-5 if max(abs(x) for x in shift) <= 2.0 ** 17 else 3e-4
+                I.chk(f'interpolate_laplacian: grid, density and points translated by {shift} vs untranslated (relative {tol:g})', np.max(np.abs(v - v0)), tol * max(1.0, float(np.max(np.abs(v0)))))
+            else:
+                # the initial-value answers move by up to 2.2e-4 per unit charge under ANY perturbation of the input (observed for shifts 2^10 .. 2^20 alike): that is
+                # its accuracy level (3e-4 relative, adaptive steps), so it is held to 5e-4 like the ivp additivity; bvp / robust: observed <= 8e-11
+                I.chk(f'{kind}: grid, density and points translated by {shift} vs untranslated', np.max(np.abs(v - v0)), (5e-4 if kind == 'ivp' else sp['linear_atol_unit']) * qq)
+                I.chk(f'{kind}: translated by {shift} vs analytic potential', np.max(np.abs(v - _ref(p, gg))), sp['atol_unit'] * qq)
+    # molecular grid far from the origin
+    Im = _Inv({**sp, 'grid': sp['grid_mol']})
+    cm = [np.array(c, dtype=float) for c in sp['atoms2']]
+    gm = [(1.0, sp['gauss'][0][1], list(cm[0])), (0.6, sp['gauss'][-1][1], list(cm[-1]))]
+    pm = np.round(_points({'pseed': sp['seed'], 'npts': 25, 'rlo': 0.05}, cm, 8.0) * 2.0 ** 20) / 2.0 ** 20
+    ref = None
+    for shift in [Z] + [list(x) for x in sp['shifts'][:1]]:
+        c = np.array(shift, dtype=float)
+        g = Im.mol([list(x + c) for x in cm])
+        gg = _shift_gauss(gm, c)
+        v = Im.solve('bvp', g, _rho(g.points, gg), include_origin=False)(pm + c)
+        if ref is None:
+            ref = v
+            I.chk('molecular bvp at the origin vs analytic potential (coarse grid)', np.max(np.abs(v - _ref(pm, gm))), 5e-2 * 1.6)
+        else:
+            I.chk(f'molecular bvp: grid, density and points translated by {shift} vs untranslated', np.max(np.abs(v - ref)), sp['linear_atol_unit'] * 1.6)
+
+
+def inv_scale(I):
+    """class 8: data of extreme but legal magnitude.  The solvers carry absolute tolerances (DESIGN 8.3): for tiny amplitudes the answer is held
+    to the absolute floor measured on the pinned tree, for large ones (initial-value solver) to the relative accuracy; interpolate_laplacian
+    is linear to rounding for every power-of-two scale that does not underflow"""
+    sp = I.spec
+    Z = [0.0, 0.0, 0.0]
+    g = I.grid(Z)
+    gs = [tuple(x) for x in sp['gauss']]
+    q = sum(abs(c) for c, _, _ in gs)
+    rho = _rho(g.points, gs)
+    pts = I.points([Z], k=30)
+    ref = _ref(pts, gs)
+    for kind, floor, amps in (('bvp', sp['bvp_floor'], sp['bvp_amps']), ('ivp', sp['ivp_floor'], sp['ivp_amps'])):
+        for a in amps:
+            try:
+                v = I.solve(kind, g, a * rho)(pts)
+            except ValueError as e:
+                if kind == 'bvp' and abs(a) >= 1e4 and "didn't converge" in str(e):
+                    continue        # documented rejection for large amplitudes (absolute tolerance of solve_bvp), not a wrong value
+                I.chk(f'{kind}: amplitude {a:g} raised ValueError: {str(e)[:60]}', 1.0, 0.5)
+                continue
+            I.chk(f'{kind}: density scaled by {a:g}: |V - a V_analytic| within max(1e-2 |a| Q, absolute floor {floor:g}) and finite',
+                  np.max(np.abs(v - a * ref)) if np.all(np.isfinite(v)) else float('inf'), max(sp['atol_unit'] * abs(a) * q, floor))
+    L1 = I.lap(g, rho)(pts)
+    for k in sp['lap_pows']:
+        a = 2.0 ** k
+        La = I.lap(I.grid(Z), a * rho)(pts)
+        I.chk(f'interpolate_laplacian: density scaled by 2^{k}: L[a f] = a L[f] to rounding', np.max(np.abs(La / a - L1)), 1e-12 * max(1.0, float(np.max(np.abs(L1)))))
+
+
+def inv_special(I):
+    """classes 9-12: arrays handed out by the callables and edited by the caller; the caller's buffers reused after the solve; two option
+    values alternating on one object; first call on a fresh object with non-default options; evaluation points coinciding with special
+    points (the centre, the Cartesian origin, radial shells, the polar axis, the phi = 0 / pi half planes) under a shifted, rotated frame"""
+    sp = I.spec
+    c = np.array(sp['center'], dtype=float)
+    rot = sp['rotate']
+    mk = lambda: I.AtomGrid(I.radial, degrees=[I.spec['grid']['deg']], center=c.copy(), rotate=rot)
+    gs = [(a, al, [float(x) for x in c]) for a, al, _ in sp['gauss']]
+    gr = _core('H', c) + gs
+    q, qr = sum(abs(a) for a, _, _ in gs), sum(abs(a) for a, _, _ in gr)
+    g = mk()
+    rho, rhor = _rho(g.points, gs), _rho(g.points, gr)
+    pts = I.points([c], k=20)
+    atc, atn = np.array([c]), np.array([1])
+
+    def build(kind, grid, dens, **kw):
+        if kind == 'lap':
+            return I.lap(grid, dens)
+        if kind == 'robust':
+            np.random.seed(7)
+            return I.robust(grid, dens, I.inv, atn, atc, remove_large_pts=10.0, **kw)
+        return I.solve(kind, grid, dens, **kw)
+
+    # -- class 12: special points -------------------------------------------------------------------------------------------
+    shells = np.sort(I.radial.points)
+    rs = [float(shells[np.argmin(np.abs(shells - x))]) for x in (0.1, 0.5, 2.0)]
+    ez, ex, ey = np.eye(3)[2], np.eye(3)[0], np.eye(3)[1]
+    special = [c + r * d for r in rs for d in (ez, -ez, ex, -ex, ey)] + [np.zeros(3), c * 0.5]
+    special = np.array([p for p in special if np.linalg.norm(p - c) >= 0.05])
+    a0 = sp['gauss'][0][1]
+    for kind, dens, gg, qq in (('bvp', rho, gs, q), ('ivp', rho, gs, q), ('robust', rhor, gr, qr)):
+        V = build(kind, g, dens)
+        I.chk(f'{kind}, centre {list(c)}, rotate={rot}: points on radial shells along +-z (poles), +-x (phi = 0, pi), y, the Cartesian origin, the half-way point vs analytic',
+              np.max(np.abs(V(special) - _ref(special, gg))), sp['atol_unit'] * qq)
+        v0 = V(np.array([c, c + 1e-9 * ez, c - 1e-12 * ex]))
+        I.chk(f'{kind}: finite at the centre itself and 1e-9 / 1e-12 away from it [{v0!r}]', 0.0 if np.all(np.isfinite(v0)) else 1.0, 0.5)
+        # -- class 9: the array handed out is the caller's -----------------------------------------------------------------
+        out = V(pts)
+        snap = out.copy()
+        out[:] = 777.0
+        out2 = V(pts)
+        I.same(f'{kind}: callable evaluated again after the caller overwrote the array it was handed', out2, snap)
+        out2 *= 0.0
+        I.same(f'{kind}: third evaluation after the second array was zeroed', V(pts), snap)
+        # -- class 9: the caller reuses its own buffers after the solve --------------------------------------------------
+        dens2, p2 = dens.copy(), pts.copy()
+        an2 = atn.copy()
+        V2 = build(kind, g, dens2) if kind != 'robust' else (np.random.seed(7), I.robust(g, dens2, I.inv, an2, atc, remove_large_pts=10.0))[1]
+        dens2[:] = -1.0
+        an2[:] = 8
+        v = V2(p2)
+        p2[:] = 0.0
+        I.same(f'{kind}: callable after the caller reused its density / atnums buffers vs before', v, snap)
+    L = build('lap', g, rho)
+    lap = lambda p: (4 * a0 * a0 * np.sum((p - c) ** 2, axis=1) - 6 * a0) * np.exp(-a0 * np.sum((p - c) ** 2, axis=1))
+    if len(sp['gauss']) == 1:
+        I.chk(f'interpolate_laplacian, centre {list(c)}, rotate={rot}: shells along +-z, +-x, y, origin, half-way point vs closed form',
+              np.max(np.abs(L(special) - sp['gauss'][0][0] * (a0 / np.pi) ** 1.5 * lap(special))), 5e-2 * 6 * a0 * sp['gauss'][0][0] * (a0 / np.pi) ** 1.5)
+    l1 = L(pts)
+    snap = l1.copy()
+    l1[:] = 0.0
+    I.same('interpolate_laplacian: evaluated again after the caller zeroed the returned array', L(pts), snap)
+    # -- class 10: two option values alternating on one object ----------------------------------------------------------------------
+    pin = c + (pts - c) * (0.2 / np.linalg.norm(pts - c, axis=1))[:, None]      # all at distance 0.2: inside a cutoff of 0.3, outside 0.1
+    a1, b1, a2, b2 = L(pin, 0.3), L(pin, 0.1), L(pin, 0.3), L(pin, 0.1)
+    I.same('interpolate_laplacian: cutoff 0.3 / 0.1 alternating on one callable (first vs third)', a2, a1, rtol=1e-13)
+    I.same('interpolate_laplacian: cutoff 0.3 / 0.1 alternating on one callable (second vs fourth)', b2, b1, rtol=1e-13)
+    I.chk('interpolate_laplacian: the two cutoffs give different values at distance 0.2 (the option is used)', 0.0 if np.max(np.abs(a1 - b1)) > 0 else 1.0, 0.5)
+    vt, vf, vt2 = (I.solve('bvp', g, rho, include_origin=io)(pts) for io in (True, False, True))
+    I.same('bvp: include_origin True / False / True on one grid object (first vs third)', vt2, vt)
+    I.same('bvp: include_origin False on the used grid object vs on a fresh one', vf, I.solve('bvp', mk(), rho.copy(), include_origin=False)(pts))
+    # -- class 11: first call on a fresh object with a non-default option ------------------------------------------------------------
+    used = mk()
+    I.solve('bvp', used, rho)(pts)
+    I.solve('ivp', used, rho)(pts)
+    I.lap(used, rho)(pts)
+    B = float(g.integrate(rho) * 2.0 * np.sqrt(np.pi)) * 1.01
+    firsts = (('bvp', dict(include_origin=False, remove_large_pts=None, boundary=B)), ('bvp', dict(ode_params={'tol': 1e-8}, remove_large_pts=float(shells[-3]))),
+              ('ivp', dict(ode_params={'method': 'RK45', 'rtol': 1e-9})), ('robust', dict(split2=True, alphas_basis=[0.3, 1.0, 3.0, 9.0])))
+    for kind, kw in firsts:
+        dens = rhor if kind == 'robust' else rho
+        fresh = build(kind, mk(), dens.copy(), **kw)(pts)
+        again = build(kind, used, dens, **kw)(pts)
+        I.same(f'{kind}: first call ever on a fresh grid object with {kw!r} vs the same call on a grid object used before with the defaults', fresh, again)
+    I.same('interpolate_laplacian: first evaluation with cut_off=0.3 on a fresh callable vs on a used one', I.lap(mk(), rho.copy())(pin, 0.3), a1)
+    # -- documented rejections of the robust solver (docstring "Raises"; guards carried by the translator) ------------------------------------
+    Vr = build('robust', g, rhor)
+    I.raises('robust: density_vals one value short', ValueError, lambda: build('robust', g, rhor[:-1]))
+    I.raises('robust: density_vals of shape (N, 1)', ValueError, lambda: build('robust', g, rhor[:, None]))
+    I.raises('robust: alphas_basis containing 0', ValueError, lambda: build('robust', g, rhor, split2=True, alphas_basis=[1.0, 0.0]))
+    I.raises('robust: alphas_basis containing a negative exponent', ValueError, lambda: build('robust', g, rhor, split2=True, alphas_basis=[1.0, -2.0]))
+    I.raises('robust: empty alphas_basis', ValueError, lambda: build('robust', g, rhor, split2=True, alphas_basis=[]))
+    I.raises('robust: two-dimensional alphas_basis', ValueError, lambda: build('robust', g, rhor, split2=True, alphas_basis=[[1.0, 2.0]]))
+    I.raises('robust: evaluation points of shape (M, 2)', ValueError, lambda: Vr(pts[:, :2]))
+    I.raises('robust: one evaluation point of shape (3,)', ValueError, lambda: Vr(pts[0]))
+    I.raises('robust: atnums / atcoords of different lengths', ValueError, lambda: I.robust(g, rhor, I.inv, np.array([1, 1]), atc, remove_large_pts=10.0))
+    # -- the closure of the robust solver keeps *views* of the caller's atcoords (observation, replayed when it is a listed finding)
+    if sp.get('atcoords_view'):
+        ac = np.array([c])
+        np.random.seed(7)
+        V = I.robust(g, rhor, I.inv, atn, ac, remove_large_pts=10.0)
+        before = V(pts)
+        ac += 1.0
+        I.chk('robust: potential callable after the caller shifted its atcoords array in place by 1 bohr vs before', np.max(np.abs(V(pts) - before)), 1e-10)
+
+
+def inv_threshold(I):
+    """class 7: inputs next to the hard-coded thresholds of poisson.py"""
+    sp = I.spec
+    Z = [0.0, 0.0, 0.0]
+    gs = [tuple(x) for x in sp['gauss']]
+    q = sum(abs(c) for c, _, _ in gs)
+    from grid import onedgrid, rtransform
+    p0 = _points({'pseed': sp['seed'], 'npts': 30}, [np.zeros(3)], 10.0)
+    # first radial point next to 0 / next to the 1e-10 of the r == 0 replacement, with and without the added origin
+    for rmin in sp['rmins']:
+        tf = rtransform.BeckeRTransform(rmin, R=sp['R'], trim_inf=True)
+        rad = tf.transform_1d_grid(onedgrid.Trapezoidal(sp['n0']))
+        g0 = I.AtomGrid(rad, degrees=[5], center=np.zeros(3))
+        rho0 = _rho(g0.points, gs)
+        for io in (True, False):
+            np.random.seed(7)
+            try:
+                v = I.bvp(g0, rho0, rtransform.InverseRTransform(tf), include_origin=io, remove_large_pts=10.0)(p0)
+            except ValueError as e:
+                # a first radial point that the transformed variable cannot tell from 0 (or solve_bvp giving up): a rejection, not a value
+                # envelope measured on the pinned tree (8 grids x 10 first points): include_origin=True with a first point in (0, 1e-9) -- two mesh nodes the
+                # solver cannot separate -- and any first point below 1e-11 stop with 'x must be strictly increasing' / 'didn't converge'; all other combinations are accurate
+                lim = 1e-9 if io else 1e-11
+                I.chk(f'bvp, first radial point {rmin:g}, include_origin={io}: ValueError only for a first point in (0, {lim:g}) [{str(e)[:50]}]', 0.0 if 0 < rmin < lim else 1.0, 0.5)
+                continue
+            I.chk(f'bvp, first radial point {rmin:g} (next to 0 / 1e-10), include_origin={io} vs analytic', np.max(np.abs(v - _ref(p0, gs))), sp['atol_unit'] * q)
+    # r_interval next to its defaults (1000, 1e-5)
+    tf = rtransform.BeckeRTransform(1e-6, R=1.5)
+    rad = tf.transform_1d_grid(onedgrid.GaussLegendre(sp['n_ivp']))
+    gi = I.AtomGrid(rad, degrees=[3], center=np.zeros(3))
+    rhoi = _rho(gi.points, gs)
+    pi_ = _points({'pseed': sp['seed'] + 1, 'npts': 30, 'rlo': 0.05}, [np.zeros(3)], 10.0)
+    inv = rtransform.InverseRTransform(tf)
+    vd = I.ivp(gi, rhoi, inv)(pi_)
+    I.chk('ivp with the default r_interval vs analytic', np.max(np.abs(vd - _ref(pi_, gs))), sp['atol_unit'] * q)
+    I.same('ivp: default r_interval vs r_interval=(1000, 1e-5) given', I.ivp(gi, rhoi, inv, r_interval=(1000, 1e-5))(pi_), vd, rtol=1e-13)
+    for ri in sp['intervals']:
+        I.chk(f'ivp, r_interval={tuple(ri)} (next to the defaults) vs analytic', np.max(np.abs(I.ivp(gi, rhoi, inv, r_interval=tuple(ri))(pi_) - _ref(pi_, gs))), sp['atol_unit'] * q)
+    I.raises('ivp: r_interval (1e-5, 1000) rejected', ValueError, lambda: I.ivp(gi, rhoi, inv, r_interval=(1e-5, 1000)))
+    # remove_large_pts next to a radial point: "removes any points larger than": the point itself stays
+    g = I.grid(Z)
+    rho = _rho(g.points, gs)
+    pts = I.points([Z])
+    allp = np.sort(I.radial.points)
+    k = int(np.argmin(np.abs(allp - 10.0)))
+    B = float(g.integrate(rho) * 2.0 * np.sqrt(np.pi))
+    dB = sp['dB']
+    r = np.linalg.norm(pts, axis=1)
+    for f in (1.0, 1.01, 1.0 / 1.01):
+        rl = float(allp[k]) * f
+        hi = float(allp[allp <= rl][-1])
+        v0 = I.solve('bvp', g, rho, boundary=B, remove_large_pts=rl)(pts)
+        v1 = I.solve('bvp', g, rho, boundary=B + dB, remove_large_pts=rl)(pts)
+        sel = (r > 0) & (r < hi)
+        shift = dB / (2.0 * np.sqrt(np.pi)) / hi
+        I.chk(f'bvp: remove_large_pts = {f:.4f} x radial point {allp[k]!r}: boundary + {dB} shifts the potential by dB*Y00/hi with hi = {hi!r} (largest point <= remove_large_pts)',
+              np.max(np.abs((v1 - v0 - shift)[sel])), 1e-6 * (abs(dB) + 2 * q))
+    # evaluation points next to the 1e-300 mask of the back-substitution: finite, and the same on both sides
+    V = I.solve('bvp', g, rho)
+    d = np.array([0.6, 0.0, 0.8])
+    tiny = np.array([t * d for t in (1e-300 / 1.01, 1.01e-300, 1e-302, 1e-298, 5e-324, 2.3e-308)])
+    vt = V(tiny)
+    I.chk(f'bvp: finite at distances 1e-300/1.01, 1.01e-300, 1e-302, 1e-298, 5e-324, 2.3e-308 from the centre [{vt!r}]', 0.0 if np.all(np.isfinite(vt)) else 1.0, 0.5)
+
+
 def inv_run(spec):
     """-> list of (label, observed, threshold); a check fails iff not observed <= threshold"""
     I = _Inv(spec)
-    {'funcvals': inv_funcvals, 'params': inv_params, 'grid': inv_grid, 'mol': inv_mol, 'dtype': inv_dtype, 'extreme': inv_extreme}[spec['scenario']](I)
+    {'funcvals': inv_funcvals, 'params': inv_params, 'grid': inv_grid, 'mol': inv_mol, 'dtype': inv_dtype, 'extreme': inv_extreme,
+     'translate': inv_translate, 'scale': inv_scale, 'special': inv_special, 'threshold': inv_threshold}[spec['scenario']](I)
     return I.out
 '''
 _ns_inv: dict = {}
@@ -780,8 +1120,8 @@ def _small_grid(ctx: Ctx, center=None, with_origin=None):
     og = importlib.import_module("grid.onedgrid")
     rt = importlib.import_module("grid.rtransform")
     ag = importlib.import_module("grid.atomgrid")
-    n = ctx.rng.randrange(6, 26)
-    rmin = ctx.rng.choice([0.0, 1e-6, 1e-3]) if with_origin is None else (0.0 if with_origin else 1e-4)
+    n = ctx.rng.choice([2, 3, 4, 5]) if ctx.rng.random() < 0.12 else ctx.rng.randrange(6, 26)      # single-interval / few-shell grids included
+    rmin = ctx.rng.choice([0.0, 1e-6, 1e-3, 1e-300, 1.01e-10]) if with_origin is None else (0.0 if with_origin else 1e-4)
     oned = og.Trapezoidal(n) if (rmin == 0.0 or ctx.rng.random() < 0.5) else og.GaussLegendre(n)
     tf = rt.BeckeRTransform(rmin, R=ctx.rng.uniform(0.8, 2.0), trim_inf=True)
     radial = tf.transform_1d_grid(oned)
@@ -853,11 +1193,23 @@ def _check_atom(ctx: Ctx, kind, rec, calls, opts, y00_lib, consts, key):
         for c in calls[:1]:
             if tuple(float(v) for v in c["x"]) != tuple(float(v) for v in opts["r_interval"]):
                 ctx.fail("corr", f"{key}:interval", "r_interval handed to solve_ode_ivp differs", witness={"impl": c["x"], "want": opts["r_interval"]})
-    # problems: data, coefficients, rhs at sample radii
+    # problems: data, coefficients, rhs at sample radii; the radial component problem #i reads is the generated i_spline bookkeeping
+    a1, a2 = driver_batch([f"C16.splineidx {len(calls)}", f"C16.harmdeg {lmax}"])
+    tag, t = _tok(a1)
+    idx_b, idx_i = t.vec(), t.vec()
+    sidx = idx_b if kind == "bvp" else idx_i
+    tag, t = _tok(a2)
+    hd = [int(t.tok()), int(t.tok())][0 if kind == "bvp" else 1]
     splines = g.radial_component_splines(vals)
+    if len(sidx) != len(calls) or any(not (0 <= j < len(splines)) for j in sidx) or (hd + 1) ** 2 != len(calls):
+        ctx.fail("corr", f"{key}:index", f"{kind}: generated i_spline sequence {sidx[:6]}… / harmonic degree {hd} do not fit {len(calls)} problems and {len(splines)} radial components",
+                 witness={"l_max": lmax, "sidx": sidx[:10], "harm_degree": hd})
+        return
     pick = sorted(set([0, 1, 2, 3, len(calls) - 1] + [ctx.rng.randrange(len(calls)) for _ in range(3)]))
     pick = [i for i in pick if 0 <= i < len(calls)]
     rs_pool = [float(x) for x in (calls[0]["x"] if kind == "bvp" else g.rgrid.points)]
+    if not rs_pool:       # every radial point was above remove_large_pts (empty mesh handed to the ode layer): sample the callables at the grid's radii
+        rs_pool = [float(x) for x in g.rgrid.points]
     lines, meta = [], []
     for i in pick:
         c = calls[i]
@@ -876,13 +1228,14 @@ def _check_atom(ctx: Ctx, kind, rec, calls, opts, y00_lib, consts, key):
             continue
         rs = [rs_pool[0], rs_pool[-1], ctx.rng.choice(rs_pool), 10 ** ctx.rng.uniform(-3, 1.5)]
         if kind == "bvp":
-            rs.append(0.0)
+            # both sides of the `r == 0` replacement and of its constant 1e-10 (factors 1.01 and 100), the smallest doubles
+            rs += [0.0, -0.0, ctx.rng.choice([5e-324, 1e-300, 1e-12, 1e-10 / 1.01, 1e-10, 1.01e-10, 1e-8])]
         for r in rs:
             arr = np.array([r], dtype=float)
             with np.errstate(all="ignore"):
                 cv = [float(np.asarray(a(arr.copy())).reshape(-1)[0]) if callable(a) else float(a) for a in c["coeffs"]]
                 fv = float(np.asarray(c["fx"](arr.copy())).reshape(-1)[0])
-                rho = float(splines[i](r))
+                rho = float(splines[sidx[i]](r))
             lines.append(f"C16.{kind} {l} {f2b(r)} {f2b(rho)}")
             meta.append((i, l, r, rho, cv, fv))
     out = driver_batch(lines)
@@ -890,7 +1243,7 @@ def _check_atom(ctx: Ctx, kind, rec, calls, opts, y00_lib, consts, key):
         tag, t = _tok(ans)
         mc = t.fvec()
         mf = t.flt()
-        ctx.count([kind, "problem", lmax, i, r], nontrivial=(lmax // 2 >= 1 and integral != 0.0), tag=f"{kind}:problem:l={l}" + (":r=0" if r == 0.0 else ""))
+        ctx.count([kind, "problem", lmax, i, r], nontrivial=(lmax // 2 >= 1 and integral != 0.0), tag=f"{kind}:problem:l={l}" + (":r=0" if r == 0.0 else ":r<=1e-8" if r <= 1e-8 else ""))
         if not (len(mc) == 3 and all(_feq(a, b) for a, b in zip(cv, mc))):
             ctx.fail("corr", f"{key}:coeffs", f"{kind} problem #{i} (l={l}) coefficients at r={r}: implementation {cv}, model {mc}",
                      witness={"i": i, "l": l, "r": r, "impl": cv, "model": mc})
@@ -911,10 +1264,14 @@ def _check_atom(ctx: Ctx, kind, rec, calls, opts, y00_lib, consts, key):
     # back-substitution and sum over (l, m)
     pts = g.center + np.array([[ctx.rng.gauss(0, 1) for _ in range(3)] for _ in range(4)]) * 10 ** ctx.rng.uniform(-2, 0.5)
     pts = np.vstack([pts, g.center[None, :]])
+    if not np.any(g.center):
+        # both sides of the 1e-300 mask of the back-substitution (factors 1.01 and 100) and the smallest doubles: representable only around the origin
+        d = np.array([0.6, 0.0, -0.8])
+        pts = np.vstack([pts] + [(t * d)[None, :] for t in (1e-300 / 1.01, 1e-300, 1.01e-300, 1e-302, 1e-298, 5e-324)])
     with np.errstate(all="ignore"):
         got = rec["interp"](pts)
     sph = g.convert_cartesian_to_spherical(pts)
-    ylm = utils.generate_real_spherical_harmonics(lmax // 2, sph[:, 1], sph[:, 2])
+    ylm = utils.generate_real_spherical_harmonics(hd, sph[:, 1], sph[:, 2])
     lines = []
     for j in range(len(pts)):
         us = [float(_dummy_spline(i)(sph[j, 0])) for i in range(len(calls))]
@@ -925,7 +1282,7 @@ def _check_atom(ctx: Ctx, kind, rec, calls, opts, y00_lib, consts, key):
         model = vb if kind == "bvp" else vi
         r = float(sph[j, 0])
         scale = float(np.sum(np.abs(ylm[:, j])) * (1.0 + len(calls) * 0.2) / (r if (kind == "bvp" and r > 0) else 1.0))
-        ctx.count([kind, "value", lmax, r], nontrivial=(lmax // 2 >= 1), tag=f"{kind}:value" + (":r=0" if r == 0.0 else ""))
+        ctx.count([kind, "value", lmax, r], nontrivial=(lmax // 2 >= 1), tag=f"{kind}:value" + (":r=0" if r == 0.0 else ":r~1e-300" if r < 1e-200 else ""))
         if not _feq(got[j], model, rtol=1e-11, scale=scale):
             ctx.fail("corr", f"{key}:value", f"{kind}: interpolant at distance {r} from the centre is {float(got[j])}, model {model} (known radial functions)",
                      witness={"r": r, "impl": float(got[j]), "model": model, "l_max": lmax})
@@ -935,6 +1292,13 @@ def _consts():
     tag, t = _tok(driver_batch(["C16.consts"])[0])
     c = {"tol": t.flt(), "max_nodes": t.nat(), "no_deriv": bool(t.nat()), "remove_large": t.flt(), "include_origin": bool(t.nat()),
          "method": t.tok(), "rtol": t.flt(), "atol": t.flt(), "r0": t.flt(), "r1": t.flt(), "split2": bool(t.nat())}
+    tag, t = _tok(driver_batch(["C16.consts2"])[0])
+    c.update({"pub_r0": t.flt(), "pub_r1": t.flt(), "pub_include_origin": bool(t.nat()), "pub_remove_large": t.flt(),
+              "wrap_weight": t.flt(), "wrap_atnum": t.flt(), "wrap_store": bool(t.nat()), "mol_requires_store": bool(t.nat()),
+              "bvp_y00_angles": (t.flt(), t.flt()), "ivp_y00_angles": (t.flt(), t.flt()), "domain_index": t.nat(), "where_index": t.nat(),
+              "basis_start": t.flt(), "basis_stop": t.flt(), "basis_num": t.nat(), "fit_empty_shape": (t.nat(), t.nat()), "fit_init_shape": (t.nat(), t.nat()),
+              "core_zip_strict": bool(t.nat()), "robust_zip_strict": bool(t.nat()), "core_sum_axis": t.nat(), "fit_sum_axis": t.nat(), "tile_cols": t.nat(),
+              "split2_dflt": bool(t.nat()), "copies_density": bool(t.nat()), "fit_copies": bool(t.nat())})
     return c
 
 
@@ -953,15 +1317,18 @@ def corr(ctx: Ctx):
     sa = inspect.signature(P._solve_poisson_bvp_atomgrid).parameters
     si = inspect.signature(P._solve_poisson_ivp_atomgrid).parameters
     ctx.count(["defaults"], nontrivial=False, tag="defaults")
-    for nm, par in (("solve_poisson_bvp", sb), ("_solve_poisson_bvp_atomgrid", sa)):
-        if par["remove_large_pts"].default != consts["remove_large"] or par["include_origin"].default is not consts["include_origin"] or par["boundary"].default is not None:
+    for nm, par, kr, ki in (("solve_poisson_bvp", sb, "pub_remove_large", "pub_include_origin"), ("_solve_poisson_bvp_atomgrid", sa, "remove_large", "include_origin")):
+        if par["remove_large_pts"].default != consts[kr] or par["include_origin"].default is not consts[ki] or par["boundary"].default is not None:
             ctx.fail("corr", "poisson.solve_poisson_bvp:defaults", f"{nm}: defaults differ from the generated ones",
                      witness={"impl": [repr(par[k].default) for k in ("boundary", "include_origin", "remove_large_pts")], "model": consts})
-    if tuple(si["r_interval"].default) != (consts["r0"], consts["r1"]) or tuple(inspect.signature(P.solve_poisson_ivp).parameters["r_interval"].default) != (consts["r0"], consts["r1"]):
+    if tuple(si["r_interval"].default) != (consts["r0"], consts["r1"]) or tuple(inspect.signature(P.solve_poisson_ivp).parameters["r_interval"].default) != (consts["pub_r0"], consts["pub_r1"]):
         ctx.fail("corr", "poisson.solve_poisson_ivp:defaults", "r_interval default differs", witness={"impl": si["r_interval"].default, "model": [consts["r0"], consts["r1"]]})
-    if inspect.signature(RP.solve_poisson_robust).parameters["split2"].default is not consts["split2"]:
+    if inspect.signature(RP.solve_poisson_robust).parameters["split2"].default is not consts["split2"] or consts["split2"] is not consts["split2_dflt"]:
         ctx.fail("corr", "robust_poisson.solve_poisson_robust:defaults", "split2 default differs")
-    y00_lib = float(utils.generate_real_spherical_harmonics(0, np.array([0.1]), np.array([0.1]))[0, 0])
+    y00_lib = float(utils.generate_real_spherical_harmonics(0, np.array([consts["bvp_y00_angles"][0]]), np.array([consts["bvp_y00_angles"][1]]))[0, 0])
+    y00_ivp = float(utils.generate_real_spherical_harmonics(0, np.array([consts["ivp_y00_angles"][0]]), np.array([consts["ivp_y00_angles"][1]]))[0, 0])
+    if f2b(y00_lib) != f2b(y00_ivp):
+        ctx.fail("corr", "poisson:y00", f"Y_00 at the angles of the two solvers differs: {y00_lib} vs {y00_ivp}")
     tag, t = _tok(driver_batch(["C16.y00"])[0])
     y00_m = t.flt()
     ctx.count(["y00"], nontrivial=False, tag="y00")
@@ -982,7 +1349,8 @@ def corr(ctx: Ctx):
             grids.append(ag.AtomGrid(g0.rgrid, degrees=[int(g0.l_max)], center=c))
         if natom == 1:
             mg = grids[0]
-            weights, indices = np.ones(mg.size), np.array([0, mg.size])
+            # an AtomGrid argument: the generated wrap (np.array([w] * size), one atom: indices = [0, size])
+            weights, indices = np.array(_tok(driver_batch([f"C16.wrap {mg.size}"])[0])[1].fvec()), np.array([0, mg.size])
         else:
             mg = mgm.MolGrid(np.array([1] * natom), grids, becke.BeckeWeights(order=3), store=True)
             weights, indices = mg.aim_weights, mg.indices
@@ -994,14 +1362,23 @@ def corr(ctx: Ctx):
                     if kind == "bvp":
                         pts_r = g0.rgrid.points
                         opts["include_origin"] = ctx.rng.random() < 0.6
-                        opts["remove_large_pts"] = ctx.rng.choice([None, 1e6, float(np.sort(pts_r)[len(pts_r) * 2 // 3]), float(pts_r[-1])])
+                        pk = float(np.sort(pts_r)[len(pts_r) * 2 // 3])
+                        # None / default / exactly a radial point / both sides of it by factors 1.01 and 100
+                        opts["remove_large_pts"] = ctx.rng.choice([None, 1e6, pk, float(pts_r[-1]), pk * 1.01, pk / 1.01, pk * 100.0, pk / 100.0])
                         opts["boundary"] = None if ctx.rng.random() < 0.7 else ctx.rng.uniform(-2, 2)
                         V = P.solve_poisson_bvp(mg, vals, inv, boundary=opts["boundary"], include_origin=opts["include_origin"],
                                                 remove_large_pts=opts["remove_large_pts"])
                     else:
                         rmax, rmin = float(np.max(g0.rgrid.points)), float(np.min(g0.rgrid.points))
-                        opts["r_interval"] = (min(rmax, 50.0), rmin) if ctx.rng.random() < 0.9 else (rmin, rmax)
-                        V = P.solve_poisson_ivp(mg, vals, inv, r_interval=opts["r_interval"])
+                        u = ctx.rng.random()
+                        if u < 0.12:          # the default of the public function
+                            opts["r_interval"] = (consts["pub_r0"], consts["pub_r1"])
+                            V = P.solve_poisson_ivp(mg, vals, inv)
+                        else:
+                            # decreasing / increasing (rejected) / equal end points and end points differing by one part in 1e2 either way (the guard is `<`)
+                            opts["r_interval"] = ((min(rmax, 50.0), rmin) if u < 0.7 else (rmin, rmax) if u < 0.8 else (rmax, rmax) if u < 0.87
+                                                  else (rmin, rmin * 1.01) if u < 0.93 else (rmin * 1.01, rmin))
+                            V = P.solve_poisson_ivp(mg, vals, inv, r_interval=opts["r_interval"])
                 impl_tag = "ok"
             except ValueError:
                 impl_tag = "value-error"
@@ -1076,7 +1453,9 @@ def corr(ctx: Ctx):
         RP._fit_residual_gaussians = fit_wrap
         try:
             kw = {"remove_large_pts": 10.0} if ctx.rng.random() < 0.5 else {}
-            V = RP.solve_poisson_robust(mg, vals, inv, np.array(atnums), np.array(centers), split2=split2, **kw)
+            # non-default bases incl. a single exponent (0 or 1 retained Gaussian per atom)
+            ab = ctx.rng.choice([None, None, [round(10 ** ctx.rng.uniform(-0.5, 1.0), 4)], [0.4, 2.5, 11.0]]) if split2 else None
+            V = RP.solve_poisson_robust(mg, vals, inv, np.array(atnums), np.array(centers), split2=split2, alphas_basis=ab, **kw)
         finally:
             for k, v in saved.items():
                 setattr(RP, k, v)
@@ -1115,16 +1494,25 @@ def corr(ctx: Ctx):
             fc, fa, fcen, _ = seen["fit_out"]
             vb = cb.coulomb_potential(pts, centers_s=fcen, coeffs_s=fc, alphas_s=fa, normalized=True)
         vr = np.sin(np.sum(pts, axis=1))
-        out = driver_batch([f"C16.total {f2b(vb[j])} {f2b(vr[j])} {fvec([p[j] for p in pots])}" for j in range(len(pts))])
-        for j, ans in enumerate(out):
+        # v_bonding as the model sees it: the potential of the returned Gaussians (any number of them); whether it is used is the generated `len(fit_coeffs) > 0`
+        nfit = len(seen["fit_out"][0]) if split2 else 0
+        out = driver_batch([f"C16.total {f2b(vb[j])} {f2b(vr[j])} {fvec([p[j] for p in pots])}" for j in range(len(pts))]
+                           + [f"C16.total2 {nfit} {f2b(vb[j])} {f2b(vr[j])} {fvec([p[j] for p in pots])}" for j in range(len(pts))])
+        for j, (ans, ans2) in enumerate(zip(out[:len(pts)], out[len(pts):])):
             tag, t = _tok(ans)
             m = t.flt()
+            m2 = _tok(ans2)[1].flt()
+            ctx.count(["robust", "total2", case, j, nfit], nontrivial=True, tag=f"robust:total:nfit={'0' if nfit == 0 else '1' if nfit == 1 else '>1'}")
+            if not _feq(tot[j], m2, rtol=1e-14):
+                ctx.fail("corr", key + ":total", f"total_potential = {float(tot[j])}, statement-wise model (nfit = {nfit}) = {m2}",
+                         witness={"impl": float(tot[j]), "model": m2, "nfit": nfit, "v_core_parts": [float(p[j]) for p in pots], "v_bonding": float(vb[j]), "v_residual": float(vr[j])})
             ctx.count(["robust", "total", case, j], nontrivial=True, tag="robust:total" + (":split2" if split2 else ""))
             if not _feq(tot[j], m, rtol=1e-14):
                 ctx.fail("corr", key + ":total", f"total_potential = {float(tot[j])}, model v_core + v_bonding + v_residual = {m}",
                          witness={"impl": float(tot[j]), "model": m, "v_core_parts": [float(p[j]) for p in pots], "v_bonding": float(vb[j]), "v_residual": float(vr[j])})
 
     _corr_laplacian(ctx)
+    _corr_round3(ctx, consts)
 
 
 # ----------------------------------------------------------------------------------------------
@@ -1308,6 +1696,261 @@ def _corr_laplacian(ctx: Ctx):
 
 
 # ----------------------------------------------------------------------------------------------
+# round 3: correspondence of the statement-wise generated text (type / domain guards, meshes next to the thresholds,
+# _build_core_density from coordinates, _fit_residual_gaussians with recorded nnls answers, the guards of the robust solver)
+# ----------------------------------------------------------------------------------------------
+def _mats(m) -> str:
+    m = np.asarray(m, dtype=float)
+    return f"{m.shape[0]} {m.shape[1]} " + " ".join(f2b(x) for x in m.reshape(-1))
+
+
+def _read_mat(t):
+    r, c = t.nat(), t.nat()
+    return np.array([t.flt() for _ in range(r * c)], dtype=float).reshape(r, c)
+
+
+_MEMO: dict = {}
+
+
+def _memo_driver(line: str) -> str:
+    """Answers of small, pure guard ops are cached and fetched in bulk (each driver call is a process start)."""
+    if line not in _MEMO:
+        _MEMO[line] = driver_batch([line])[0]
+    return _MEMO[line]
+
+
+def _prefetch(lines):
+    todo = [l for l in dict.fromkeys(lines) if l not in _MEMO]
+    if todo:
+        for l, a in zip(todo, driver_batch(todo)):
+            _MEMO[l] = a
+
+
+def _corr_round3(ctx: Ctx, consts):
+    P = importlib.import_module("grid.poisson")
+    RP = importlib.import_module("grid.robust_poisson")
+    og = importlib.import_module("grid.onedgrid")
+    rt = importlib.import_module("grid.rtransform")
+    ag = importlib.import_module("grid.atomgrid")
+    bg = importlib.import_module("grid.basegrid")
+    cb = importlib.import_module("grid.coulomb")
+    g, tf, inv = _small_grid(ctx, center=np.zeros(3), with_origin=False)
+    vals = _density(ctx, g.points, [np.zeros(3)]) + 0.1
+
+    def outcome(fn):
+        try:
+            with np.errstate(all="ignore"):
+                fn()
+            return "ok"
+        except TypeError:
+            return "type-error"
+        except ValueError:
+            return "value-error"
+        except Exception as e:
+            return type(e).__name__
+
+    # ---- the three isinstance guards of the boundary-value solver ---------------------------------
+    kinds = {"float": 1.5, "np.float64": np.float64(1.5), "none": None, "int": 2, "bool": True, "np.int64": np.int64(2), "np.float32": np.float32(1.5), "np.bool_": np.bool_(True)}
+    combos = [(opt, kind, value) for opt in ("boundary", "include_origin", "remove_large_pts") for kind, value in kinds.items()]
+    models = [a.split()[0] for a in driver_batch([f"C16.typeguard {opt} {kind}" for opt, kind, _ in combos])]
+    for (opt, kind, value), model in zip(combos, models):
+        if True:
+            with Intercept():
+                impl = outcome(lambda: P.solve_poisson_bvp(g, vals, inv, **{opt: value}))
+            ctx.count(["typeguard", opt, kind], nontrivial=True, tag=f"bvp:typeguard:{opt}:{model}")
+            if impl != model:
+                ctx.fail("corr", "poisson.solve_poisson_bvp:typeguard", f"{opt}={value!r} ({kind}): implementation {impl}, generated guard {model}",
+                         witness={"option": opt, "kind": kind, "impl": impl, "model": model})
+    _MEMO.clear()
+    _prefetch([f"C16.domain {f2b(float(x))}" for x in (-1.0, -1e-3, -1e-300, -5e-324, -0.0, 0.0, 5e-324, 1e-300, 1e-5)]
+              + [f"C16.shape {nd} {ln} {g.size}" for nd, ln in ((1, g.size), (2, g.size), (1, g.size + 1), (1, g.size - 1), (2, 2), (0, 0))]
+              + [f"C16.basis {nd} {sz}" for nd, sz in ((1, 0), (2, 2), (1, 2), (1, 1), (1, 3), (0, 1))]
+              + [f"C16.tpoints {nd} {c}" for nd, c in ((2, 3), (2, 2), (1, 0), (3, 3), (2, 4))]
+              + [f"C16.radpts {io} {has} {f2b(rl)} {fvec(np.array([first, 0.05, 0.4, 1.7, 6.0, 40.0, 1e6 / 100, 1e6 / 1.01, 1e6, 1.01e6, 1e8]))}"
+                 for first in (0.0, -0.0, 5e-324, 1e-300, 1e-10)
+                 for io, has, rl in ((int(consts["pub_include_origin"]), 1, consts["pub_remove_large"]), (0, 1, consts["pub_remove_large"]), (int(consts["pub_include_origin"]), 0, 0.0),
+                                     (int(consts["pub_include_origin"]), 1, 1.01e6), (int(consts["pub_include_origin"]), 1, 1e6 / 1.01), (1, 1, 1e8))])
+    # ---- the domain guard: lower end of the transform's domain on both sides of 0 --------------------
+    for rmin in (-1.0, -1e-3, -1e-300, -5e-324, -0.0, 0.0, 5e-324, 1e-300, 1e-5):
+        t2 = rt.InverseRTransform(rt.BeckeRTransform(rmin, R=1.5))
+        d = float(t2.domain[consts["domain_index"]])
+        with Intercept():
+            impl = outcome(lambda: P.solve_poisson_bvp(g, vals, t2, remove_large_pts=10.0))
+        model = _memo_driver(f"C16.domain {f2b(d)}").split()[0]
+        ctx.count(["domain", rmin], nontrivial=True, tag=f"bvp:domain-guard:{model}")
+        if impl != model:
+            ctx.fail("corr", "poisson.solve_poisson_bvp:domain", f"transform.domain = {t2.domain}: implementation {impl}, generated guard {model}", witness={"domain0": d, "impl": impl, "model": model})
+    # ---- meshes: radial points next to the default remove_large_pts = 1e6, first point next to 0 ------
+    for first in (0.0, -0.0, 5e-324, 1e-300, 1e-10):
+        base_pts = np.array([first, 0.05, 0.4, 1.7, 6.0, 40.0, 1e6 / 100, 1e6 / 1.01, 1e6, 1.01e6, 1e8])
+        rg = bg.OneDGrid(base_pts, np.full(len(base_pts), 0.1), (0, np.inf))
+        gg = ag.AtomGrid(rg, degrees=[3])
+        for kw in ({}, {"include_origin": False}, {"remove_large_pts": None}, {"remove_large_pts": 1.01e6}, {"remove_large_pts": 1e6 / 1.01}, {"include_origin": True, "remove_large_pts": 1e8}):
+            with Intercept() as ic:
+                impl = outcome(lambda: P.solve_poisson_bvp(gg, np.ones(gg.size), inv, **kw))
+            rl = kw.get("remove_large_pts", consts["pub_remove_large"])
+            io = kw.get("include_origin", consts["pub_include_origin"])
+            line = f"C16.radpts {int(io)} {int(rl is not None)} {f2b(rl if rl is not None else 0.0)} {fvec(base_pts)}"
+            tag, t = _tok(_memo_driver(line))
+            mesh = t.fvec()
+            ctx.count(["mesh", first, repr(sorted(kw.items()))], nontrivial=True, tag="bvp:mesh:thresholds")
+            if impl != "ok" or not ic.calls:
+                ctx.fail("corr", "poisson.solve_poisson_bvp:mesh", f"first radial point {first!r}, options {kw}: implementation {impl}", witness={"first": first, "kw": {k: repr(v) for k, v in kw.items()}})
+                continue
+            x = ic.calls[0]["x"]
+            if len(mesh) != len(x) or any(f2b(a) != f2b(b) for a, b in zip(mesh, x)):
+                ctx.fail("corr", "poisson.solve_poisson_bvp:mesh", f"mesh for radial points {base_pts.tolist()} with options {kw} (defaults from the public signature): implementation {x.tolist()}, model {mesh}",
+                         witness={"points": base_pts, "kw": {k: repr(v) for k, v in kw.items()}, "impl": x, "model": mesh})
+    # ---- _build_core_density from coordinates (also far from the origin), strict zip ----------------
+    for case in range(ctx.n(6, 40)):
+        z = ctx.rng.choice([1, 6, 7, 8, 17])
+        cs, als = cb.load_atomic_gaussian_params(int(z))
+        c = np.array([ctx.rng.uniform(-1, 1) for _ in range(3)]) + ctx.rng.choice([0.0, 0.0, 2.0 ** 12, -2.0 ** 20])
+        pts = c + np.array([[ctx.rng.gauss(0, 1) for _ in range(3)] for _ in range(4)]) * 10 ** ctx.rng.uniform(-3, 0.7)
+        pts = np.vstack([pts, c[None, :]])
+        if case % 3 == 2:
+            cs = cs[:-1]          # unequal lengths: the strict zip raises
+        impl = outcome(lambda: RP._build_core_density(pts, c, cs, als))
+        lib = RP._build_core_density(pts, c, cs, als) if impl == "ok" else None
+        out = driver_batch([f"C16.core2 {fvec(pts[j])} {fvec(c)} {fvec(cs)} {fvec(als)}" for j in range(len(pts))])
+        for j, ans in enumerate(out):
+            tag, t = _tok(ans)
+            ctx.count(["core2", case, j], nontrivial=True, tag=f"robust:core-density:{tag}")
+            if tag != impl:
+                ctx.fail("corr", "robust_poisson._build_core_density:raise", f"{len(cs)} coefficients, {len(als)} exponents: implementation {impl}, model {tag}", witness={"ncoef": len(cs), "nexp": len(als)})
+                break
+            if tag == "ok":
+                m, rsq = t.flt(), t.flt()
+                if not _feq(lib[j], m, rtol=1e-12, scale=max(abs(lib[j]), abs(m), 1e-300)):
+                    ctx.fail("corr", "robust_poisson._build_core_density:value", f"core density of Z={z} at distance {np.sqrt(rsq):.3e}: implementation {float(lib[j])}, model {m}",
+                             witness={"point": pts[j], "center": c, "Z": z, "impl": float(lib[j]), "model": m})
+    # ---- _fit_residual_gaussians: every array, with the recorded answers of nnls ---------------------
+    saved_nnls = RP.nnls
+    for case in range(ctx.n(8, 60)):
+        npt, natom, nb = ctx.rng.randrange(8, 40), ctx.rng.choice([1, 2, 3]), ctx.rng.randrange(1, 7)
+        atc = np.array([[ctx.rng.uniform(-1, 1) + 1.5 * a for _ in range(3)] for a in range(natom)])
+        gp = np.array([[ctx.rng.uniform(-2, 4) for _ in range(3)] for _ in range(npt)])
+        gp[0] = atc[0]
+        alphas = np.array(sorted(10 ** ctx.rng.uniform(-1, 2) for _ in range(nb)))
+        mode = ctx.rng.choice(["positive", "mixed", "negative", "zero", "exact"])
+        if mode == "exact":       # the residual is a non-negative combination of basis functions of the first atoms: fitted (nearly) exactly, later atoms see ~0
+            A0 = (alphas / np.pi) ** 1.5 * np.exp(-np.sum((gp - atc[0]) ** 2, axis=1)[:, None] * alphas[None, :])
+            res = A0 @ np.array([ctx.rng.choice([0.0, ctx.rng.uniform(0.2, 2)]) for _ in range(nb)])
+        else:
+            res = np.array([ctx.rng.uniform(0.0, 1) if mode == "positive" else ctx.rng.uniform(-1, 1) if mode == "mixed" else -ctx.rng.uniform(0.1, 1) if mode == "negative" else 0.0
+                            for _ in range(npt)])
+        snap = res.copy()
+        rec = []
+
+        def nnls_rec(A, b, *a, **k):
+            x = saved_nnls(A, b, *a, **k)
+            rec.append((np.array(A, copy=True), np.array(b, copy=True), np.array(x[0], copy=True)))
+            return x
+
+        RP.nnls = nnls_rec
+        try:
+            fc, fa, fcen, rout = RP._fit_residual_gaussians(gp, res, atc, alphas)
+        finally:
+            RP.nnls = saved_nnls
+        key = "robust_poisson._fit_residual_gaussians"
+        ctx.count(["fit", case, mode, natom, nb], nontrivial=natom > 1 or nb > 1, tag=f"robust:fit:{mode}:kept={'0' if len(fc) == 0 else '>0'}")
+        if not np.array_equal(res, snap):
+            ctx.fail("corr", key + ":residual-modified", "the residual handed to _fit_residual_gaussians was modified in place", witness={"mode": mode})
+        if len(rec) != natom:
+            ctx.fail("corr", key + ":nnls", f"{len(rec)} nnls calls for {natom} atoms")
+            continue
+        lines = [f"C16.fitmatrix {fvec(atc[a])} {fvec(alphas)} {_mats(gp)}" for a in range(natom)]
+        lines.append(f"C16.fit {fvec(alphas)} {_mats(gp)} {fvec(snap)} {natom} " + " ".join(f"{fvec(atc[a])} {fvec(rec[a][2])}" for a in range(natom)))
+        out = driver_batch(lines)
+        bad = False
+        for a in range(natom):
+            tag, t = _tok(out[a])
+            Am = _read_mat(t)
+            if Am.shape != rec[a][0].shape or not np.all(np.abs(Am - rec[a][0]) <= 1e-12 * np.maximum(np.abs(Am), 1e-300)):
+                ctx.fail("corr", key + ":design", f"design matrix handed to nnls for atom {a} differs from the generated A[n, k]",
+                         witness={"atom": a, "impl": rec[a][0][:2], "model": Am[:2], "alphas": alphas})
+                bad = True
+        tag, t = _tok(out[-1])
+        if tag != "ok":
+            ctx.fail("corr", key + ":model", f"model answered {tag}")
+            continue
+        mc, ma = np.array(t.fvec()), np.array(t.fvec())
+        mcen = _read_mat(t)
+        trace = _read_mat(t)          # npt x (natom + 1)
+        dens = np.array(t.fvec())
+        scale = max(1.0, float(np.max(np.abs(snap))), float(np.max(np.abs(fc))) if len(fc) else 0.0)
+        for a in range(natom):
+            if not np.all(np.abs(trace[:, a] - rec[a][1]) <= 1e-12 * scale):
+                ctx.fail("corr", key + ":trace", f"the residual handed to nnls for atom {a} differs from the model's residual after {a} atoms", witness={"atom": a, "impl": rec[a][1][:4], "model": trace[:4, a]})
+                bad = True
+        want_cen_shape = (len(mc), 3) if len(mc) else tuple(consts["fit_empty_shape"])
+        ok = (fc.shape == mc.shape and fa.shape == ma.shape and tuple(fcen.shape) == want_cen_shape and np.array_equal(fc, mc) and np.array_equal(fa, ma)
+              and (len(mc) == 0 or np.array_equal(fcen, mcen)) and rout.shape == snap.shape and np.all(np.abs(rout - trace[:, -1]) <= 1e-12 * scale))
+        if not ok and not bad:
+            ctx.fail("corr", key + ":outputs", f"returned (coeffs, alphas, centers, residual) differ from the model ({mode} residual, {natom} atoms, {nb} exponents)",
+                     witness={"impl_coeffs": fc, "model_coeffs": mc, "impl_alphas": fa, "model_alphas": ma, "impl_centers_shape": fcen.shape, "model_centers_shape": want_cen_shape,
+                              "residual_impl": rout[:4], "residual_model": trace[:4, -1]})
+        # the conservation theorem (fit_conserves) on the implementation's own numbers
+        if not np.all(np.abs(rout + dens - snap) <= 1e-11 * scale * max(1, nb)):
+            ctx.fail("corr", key + ":conservation", "returned residual + density of the returned Gaussians is not the residual handed in",
+                     witness={"worst": float(np.max(np.abs(rout + dens - snap))), "mode": mode})
+    # ---- default basis -----------------------------------------------------------------------------
+    tag, t = _tok(driver_batch(["C16.defaultbasis"])[0])
+    mb = np.array(t.fvec())
+    ctx.count(["defaultbasis"], nontrivial=True, tag="robust:default-basis")
+    lb = np.asarray(RP._DEFAULT_ALPHAS_BASIS, dtype=float)
+    if lb.shape != mb.shape or not np.all(np.abs(lb - mb) <= 1e-12 * mb):
+        ctx.fail("corr", "robust_poisson._DEFAULT_ALPHAS_BASIS", "module constant differs from geomspace(generated start, stop, num)", witness={"impl": lb[:4], "model": mb[:4], "n_impl": len(lb), "n_model": len(mb)})
+    # ---- the guards of solve_poisson_robust / total_potential (the numerical solve replaced by a known function) ----
+    saved = RP.solve_poisson_bvp
+    RP.solve_poisson_bvp = lambda molgrid, residual, transform, **kw: (lambda p: np.cos(np.sum(np.asarray(p), axis=1)))
+    try:
+        n = g.size
+        atn, atc = np.array([1]), np.zeros((1, 3))
+        shapes = {"(N,)": vals, "(N, 1)": vals[:, None], "(N+1,)": np.append(vals, 0.0), "(N-1,)": vals[:-1], "(2, N)": np.vstack([vals, vals]), "()": np.float64(1.0),
+                  "list": [float(x) for x in vals], "int64": np.ones(n, dtype=np.int64)}
+        for name, dv in shapes.items():
+            arr = np.asarray(dv)
+            impl = outcome(lambda: RP.solve_poisson_robust(g, dv, inv, atn, atc))
+            model = _memo_driver(f"C16.shape {arr.ndim} {arr.shape[0] if arr.ndim else 0} {n}").split()[0]
+            ctx.count(["robust-shape", name], nontrivial=True, tag=f"robust:shape-guard:{model}")
+            if impl != model:
+                ctx.fail("corr", "robust_poisson.solve_poisson_robust:shape-guard", f"density_vals of shape {arr.shape} on a grid of {n} points: implementation {impl}, generated guard {model}", witness={"shape": arr.shape, "npts": n})
+        bases = {"[]": [], "[[1, 2]]": [[1.0, 2.0]], "[1, 0]": [1.0, 0.0], "[1, -1]": [1.0, -1.0], "[1e-300]": [1e-300], "[5e-324, 3]": [5e-324, 3.0], "tuple": (0.5, 2.0), "int list": [1, 4],
+                 "array": np.array([0.3, 3.0, 30.0]), "scalar": 2.0, "[-0.0]": [-0.0]}
+        for name, ab in bases.items():
+            arr = np.asarray(ab, dtype=float)
+            impl = outcome(lambda: RP.solve_poisson_robust(g, vals, inv, atn, atc, split2=True, alphas_basis=ab))
+            m1 = _memo_driver(f"C16.basis {arr.ndim} {arr.size}").split()[0]
+            model = m1 if m1 != "ok" else _memo_driver(f"C16.alphas {fvec(arr.reshape(-1))}").split()[0]
+            ctx.count(["robust-basis", name], nontrivial=True, tag=f"robust:basis-guard:{model}")
+            if impl != model:
+                ctx.fail("corr", "robust_poisson.solve_poisson_robust:basis-guard", f"alphas_basis={ab!r}: implementation {impl}, generated guards {model}", witness={"alphas_basis": repr(ab)})
+        for name, (a1, a2) in {"2 atnums / 1 centre": (np.array([1, 1]), np.zeros((1, 3))), "1 atnum / 2 centres": (np.array([1]), np.zeros((2, 3)))}.items():
+            impl = outcome(lambda: RP.solve_poisson_robust(g, vals, inv, a1, a2))
+            model = "value-error" if consts["robust_zip_strict"] else "ok"
+            ctx.count(["robust-zip", name], nontrivial=True, tag="robust:strict-zip")
+            if impl != model:
+                ctx.fail("corr", "robust_poisson.solve_poisson_robust:zip", f"{name}: implementation {impl}, generated zip(strict={consts['robust_zip_strict']}) {model}")
+        for split2 in (False, True):
+            dv = vals.copy()
+            V = RP.solve_poisson_robust(g, dv, inv, atn, atc, split2=split2, alphas_basis=[0.4, 2.0] if split2 else None)
+            if not np.array_equal(dv, vals):
+                ctx.fail("corr", "robust_poisson.solve_poisson_robust:density-modified", "the caller's density array was modified (generated: np.array copy)")
+            pshapes = {"(M, 3)": np.ones((4, 3)), "(M, 2)": np.ones((4, 2)), "(3,)": np.ones(3), "(M, 3, 1)": np.ones((4, 3, 1)), "(M, 4)": np.ones((2, 4)), "list (M, 3)": [[0.1, 0.2, 0.3], [1.0, 0.0, -1.0]],
+                       "(0, 3)": np.empty((0, 3)), "int64 (M, 3)": np.ones((2, 3), dtype=np.int64)}
+            for name, pp in pshapes.items():
+                arr = np.asarray(pp)
+                impl = outcome(lambda: V(pp))
+                model = _memo_driver(f"C16.tpoints {arr.ndim} {arr.shape[1] if arr.ndim >= 2 else 0}").split()[0]
+                ctx.count(["robust-points", name, split2], nontrivial=True, tag=f"robust:points-guard:{model}")
+                if impl != model:
+                    ctx.fail("corr", "robust_poisson.solve_poisson_robust:points-guard", f"points of shape {arr.shape}: implementation {impl}, generated guard {model}", witness={"shape": arr.shape, "split2": split2})
+    finally:
+        RP.solve_poisson_bvp = saved
+
+
+# ----------------------------------------------------------------------------------------------
 # oracle: the decision
 # ----------------------------------------------------------------------------------------------
 def _g1(ctx, deg=None, n=None):
@@ -1366,7 +2009,7 @@ def _cases(ctx: Ctx, budget: str):
         add("poisson.solve_poisson_bvp:atomic", kind="bvp", grid=_g2(ctx), atoms=[c], gauss=_centred(ctx, c),
             options={"include_origin": ctx.rng.choice([True, False]), "remove_large_pts": ctx.rng.choice([1e6, round(ctx.rng.uniform(10, 25), 2)])})
         # l > 0: off-centre Gaussians on an atomic grid
-        add("poisson.solve_poisson_bvp:atomic-offcentre", kind="bvp", grid=_g2(ctx), atoms=[Z], gauss=_offcentre(ctx, Z),
+        add("poisson.solve_poisson_bvp:atomic-offcentre", kind="bvp", grid={**_g2(ctx), "rotate": ctx.rng.choice([0, ctx.rng.randrange(1, 10**6)])}, atoms=[Z], gauss=_offcentre(ctx, Z),
             options={"include_origin": False, "remove_large_pts": round(ctx.rng.uniform(10, 25), 2)})
         # l > 0 with the centre of the Gaussian exactly on a radial shell of the grid
         gsh = _g2(ctx)
@@ -1386,8 +2029,8 @@ def _cases(ctx: Ctx, budget: str):
                 v = np.array([ctx.rng.gauss(0, 1) for _ in range(3)])
                 v *= min(0.5, 2.0 / a_l) * ctx.rng.uniform(0.3, 1.0) / np.linalg.norm(v)
                 cc = [round(float(x), 4) for x in (np.asarray(c) + v)]
-            add("poisson.interpolate_laplacian:atomic", kind="laplacian", grid=ctx.rng.choice([_g1, _g2])(ctx), atoms=[c], center=cc, shape=shape, a=a_l,
-                cut=round(ctx.rng.uniform(0.05, 0.4), 3), options={})
+            add("poisson.interpolate_laplacian:atomic", kind="laplacian", grid={**ctx.rng.choice([_g1, _g2])(ctx), "rotate": ctx.rng.choice([0, ctx.rng.randrange(1, 10**6)])},
+                atoms=[c], center=cc, shape=shape, a=a_l, cut=round(ctx.rng.uniform(0.05, 0.4), 3), near_default=True, options={})
         # molecular Laplacian: structural clause (sum over atoms of one-atom interpolants), atomic grids of equal / different sizes
         for natom in (2, 3):
             at = _molecule(ctx, natom)
@@ -1423,6 +2066,35 @@ def _cases(ctx: Ctx, budget: str):
             add("poisson.solve_poisson_bvp:homogeneity", kind="homog", grid=_g2(ctx, deg=11, n=ctx.rng.randrange(50, 71)), atoms=[Z], gauss=_offcentre(ctx, Z, 1),
                 a=float(f"{ctx.rng.choice([1, -1]) * 10.0 ** expo * ctx.rng.uniform(1, 3):.3e}"),
                 options={"include_origin": False, "remove_large_pts": 10.0})
+        # ---- round 3, class 13: additivity with l > 0 components (off-centre), on molecular grids, for the initial-value route; amplitude homogeneity on
+        # molecular grids.  Envelopes measured on the pinned tree: residual <= 1.2e-7 / 2.7e-7 (off-centre / molecular bvp, bound 1e-4 per unit charge),
+        # <= 8.3e-5 per unit charge for the initial-value solver (its accuracy level, 3e-4 relative: asserted at 5e-4), molecular homogeneity <= 0.1 of the bound
+        add("poisson.solve_poisson_bvp:linearity-offcentre", kind="linear", grid={**_g2(ctx, deg=11, n=ctx.rng.randrange(50, 71)), "rotate": ctx.rng.choice([0, ctx.rng.randrange(1, 10**6)])},
+            atoms=[Z], gauss=_offcentre(ctx, Z, 1), gauss2=_offcentre(ctx, Z, 1), a=round(ctx.rng.uniform(-2, 2), 3), b=round(ctx.rng.uniform(0.5, 3), 3),
+            options={"include_origin": False, "remove_large_pts": round(ctx.rng.uniform(10, 25), 2)})
+        atl = _molecule(ctx, 2)
+        gl1, gl2 = [(1.0, _alpha(ctx, 0.5, 3.0), atl[0])], [(round(ctx.rng.uniform(0.4, 1.2), 3), _alpha(ctx, 0.5, 3.0), atl[1])]
+        which = ctx.rng.random() < 0.5      # quick tier: one of the two molecular linearity cases per run
+        if big or which:
+            add("poisson.solve_poisson_bvp:linearity-molecular", kind="linear", grid=_g2(ctx, deg=11, n=ctx.rng.randrange(50, 71)), atoms=atl, gauss=gl1, gauss2=gl2,
+                a=round(ctx.rng.uniform(-2, 2), 3), b=round(ctx.rng.uniform(0.5, 3), 3), options={"include_origin": False, "remove_large_pts": 10.0})
+        if big or not which:
+            add("poisson.solve_poisson_bvp:homogeneity-molecular", kind="homog", grid=_g2(ctx, deg=11, n=ctx.rng.randrange(50, 71)), atoms=atl, gauss=gl1 + gl2,
+                a=float(f"{ctx.rng.choice([1, -1]) * 10.0 ** ctx.rng.choice([-5, -3, -1, 2, 3]) * ctx.rng.uniform(1, 3):.3e}"),
+                options={"include_origin": False, "remove_large_pts": 10.0})
+        add("poisson.solve_poisson_ivp:linearity", kind="linear", ivp=True, grid={**GI, "n": ctx.rng.randrange(140, 171), "R": round(ctx.rng.uniform(18, 24), 2), "deg": ctx.rng.choice([3, 5])},
+            atoms=[Z], gauss=_centred(ctx, Z, 1), gauss2=_centred(ctx, Z, 2), a=round(ctx.rng.uniform(-2, 2), 3), b=round(ctx.rng.uniform(0.5, 3), 3), options={}, rlo=0.05,
+            linear_atol_unit=5e-4)
+        # robust solver with the second split on a molecular grid.  Envelope measured on the pinned tree (45 random 2-atom molecules): the greedy NNLS fit leaves a
+        # residual that reaches far out, so the ODE range must not be cut early: error / threshold = 1.2 .. 11 with remove_large_pts = 10, 0.15 .. 1.5 with 25 (outside);
+        # with remove_large_pts in 40..100 or 1e6, include_origin=False and the compact basis [0.3, 1, 3, 9, 27]: <= 0.18.  With the DEFAULT 20-exponent basis
+        # (0.05 .. 5000) the same molecules give 0.04 .. 2.0 (5-40 x the split-1 error, dependent on the NumPy seed) and scipy's nnls stops with
+        # RuntimeError('Maximum number of iterations reached') in ~10 % of them -- outside the envelope, reported to the lead (not asserted)
+        at3 = _molecule(ctx, 2)
+        add("robust_poisson.solve_poisson_robust:molecular-split2", kind="robust", grid=_g2(ctx, deg=11, n=ctx.rng.randrange(50, 66)), atoms=at3, symbols=["H", "H"], atnums=[1, 1],
+            gauss=[(round(ctx.rng.uniform(0.4, 1.0), 3), _alpha(ctx, 0.5, 2.5), at3[0]), (round(ctx.rng.uniform(0.3, 0.9), 3), _alpha(ctx, 0.5, 2.5), at3[1])],
+            split2=True, alphas_basis=[0.3, 1.0, 3.0, 9.0, 27.0], vs_plain=True,
+            options={"remove_large_pts": ctx.rng.choice([1e6, 1e6, round(ctx.rng.uniform(40, 100), 1)]), "include_origin": False})
         # robust solver on a molecular grid, residual with net charge on both atoms, ODE range ending at a moderate radius
         at2 = _molecule(ctx, 2)
         add("robust_poisson.solve_poisson_robust:molecular", kind="robust", grid=_g2(ctx, deg=ctx.rng.choice([13, 15])), atoms=at2, symbols=["H", "H"], atnums=[1, 1],
@@ -1437,6 +2109,12 @@ def _cases(ctx: Ctx, budget: str):
             split2=False, options={"remove_large_pts": 10.0})
         add("robust_poisson.solve_poisson_robust:residual", kind="robust", grid=_g1(ctx, deg=11), atoms=[Z], symbols=["H"], atnums=[1],
             gauss=[(round(ctx.rng.uniform(0.3, 1.0), 3), _alpha(ctx, 0.4, 3.0), Z)], split2=False, options={"remove_large_pts": 10.0})
+        # exact second split: density = core model + c rho_s(alpha) on the atom with alphas_basis = [alpha] (one retained Gaussian) or [alpha, alpha'] -- the NNLS fit
+        # reproduces it, the numerical solve sees ~0, the total is the analytic potential (fit_conserves / robust_split2); observed 2e-9
+        a_x = _alpha(ctx, 0.4, 3.0)
+        add("robust_poisson.solve_poisson_robust:exact-fit", kind="robust", grid=_g1(ctx, deg=11), atoms=[Z], symbols=["H"], atnums=[1],
+            gauss=[(round(ctx.rng.uniform(0.3, 1.5), 3), a_x, Z)], split2=True, exact_fit=True, alphas_basis=ctx.rng.choice([[a_x], [a_x], [a_x, round(a_x * 7.3, 4)]]),
+            options={"remove_large_pts": 10.0})
         add("robust_poisson.solve_poisson_robust:split2", kind="robust", grid=_g1(ctx, deg=11), atoms=[Z], symbols=["H"], atnums=[1],
             gauss=[(round(ctx.rng.uniform(0.3, 1.0), 3), _alpha(ctx, 0.4, 3.0), Z)], split2=True,
             alphas_basis=ctx.rng.choice([None, [round(float(x), 6) for x in np.geomspace(0.1, 200.0, 8)], [0.3, 1.0, 3.0, 9.0, 27.0]]),
@@ -1459,6 +2137,15 @@ def _cases(ctx: Ctx, budget: str):
 GI_HOMOG = {"oned": "Trapezoidal", "n": 400, "tf": "Linear", "rmin": 1e-3, "R": 60.0, "deg": 5}
 GI = {"oned": "Trapezoidal", "n": 150, "tf": "Linear", "rmin": 1e-3, "R": 20.0, "deg": 3}            # both solvers are fast and accurate here (tests' kind of ivp grid)
 GM = {"oned": "Trapezoidal", "n": 40, "tf": "Becke", "rmin": 1e-6, "R": 1.5, "trim": True, "deg": 7}   # coarse molecular grid
+
+
+def _known_keys():
+    from ..common import load_known_findings
+
+    try:
+        return set(load_known_findings("C16")[0])
+    except Exception:
+        return set()
 
 
 def _inv_cases(ctx: Ctx, budget: str, only=None):
@@ -1498,6 +2185,33 @@ def _inv_cases(ctx: Ctx, budget: str, only=None):
                                         "gauss": [(1.0, 0.4, Z), (round(ctx.rng.uniform(0.3, 1.0), 3), 6.0, Z)], "dir": [round(ctx.rng.gauss(0, 1), 3) for _ in range(2)] + [1.0],
                                         "remove_large_pts": ctx.rng.choice([10.0, 1e6, None, round(ctx.rng.uniform(10, 25), 2)]),
                                         "grid0": {"oned": "Trapezoidal", "n": ctx.rng.randrange(50, 81), "tf": "Becke", "rmin": 0.0, "R": round(ctx.rng.uniform(1.0, 2.0), 3), "trim": True, "deg": 5}}))
+    # ---- round 3: classes 7-13 (see the docstrings of inv_translate / inv_scale / inv_special / inv_threshold) ----
+    kf = _known_keys()
+    for rep in range(3 if big else 1):
+        e1, e2 = ctx.rng.choice([10, 12, 14]), ctx.rng.choice([17, 20])
+        sgn = lambda: ctx.rng.choice([-1.0, 1.0])
+        d = round(ctx.rng.uniform(1.6, 2.4), 3)
+        out.append(("poisson:translate", {**base, "scenario": "translate", "grid": gi(), "grid_mol": {**GM, "n": ctx.rng.randrange(40, 51), "deg": 7},
+                                          "gauss": [(1.0, al(), Z), (round(ctx.rng.uniform(0.3, 0.8), 3), al(), Z)],
+                                          "shifts": [[sgn() * 2.0 ** e1, 0.0, sgn() * 2.0 ** (e1 - 3)], [sgn() * 2.0 ** e2, sgn() * 2.0 ** e2, sgn() * 2.0 ** (e2 - 5)]],
+                                          "atoms2": [Z, [d, 0.0, 0.0]]}))
+        out.append(("poisson:scale", {**base, "scenario": "scale", "grid": gi(), "gauss": [(1.0, al(), Z), (round(ctx.rng.uniform(0.3, 0.8), 3), al(), Z)],
+                                      # envelope measured on the pinned tree (DESIGN 8.3): bvp absolute floor ~3e-10 (asserted 1e-8) below |a| ~ 1e-6, 'didn't converge'
+                                      # from |a| ~ 1e4 on (slow: thorough tier only); ivp: for |a| <= 1e-9 the answer is up to 1e6 x too large RELATIVE to a Q (step control sees
+                                      # nothing above atol = 1e-6), absolute error <= 1.5e-5 (largest at |a| = 1e-11; asserted 1e-4); relative accuracy 3e-4 for 1e-5 <= |a| <= 1e100
+                                      "bvp_floor": 1e-8, "ivp_floor": 1e-4,
+                                      "bvp_amps": [1e-300, 1e-50, float(f"{10.0 ** ctx.rng.uniform(-12, -6):.3e}"), -1e-9] + ([1e6] if big else []),
+                                      "ivp_amps": [1e-300, 1e-11, float(f"{10.0 ** ctx.rng.uniform(-12, -7):.3e}"), float(f"{-10.0 ** ctx.rng.uniform(3, 8):.3e}")] + ([1e12, 1e100] if big else []),
+                                      "lap_pows": [-900, -166, ctx.rng.randrange(-60, 60), 900]}))
+        out.append(("poisson:special", {**base, "scenario": "special", "grid": gi(), "gauss": [(round(ctx.rng.uniform(0.5, 1.5), 3), al(), Z)],
+                                        "center": [round(ctx.rng.uniform(-0.8, 0.8), 3) for _ in range(3)], "rotate": ctx.rng.choice([0, 17, ctx.rng.randrange(1, 10**6)]),
+                                        "atcoords_view": "robust_poisson.solve_poisson_robust:atcoords-view" in kf}))
+        out.append(("poisson:threshold", {**base, "scenario": "threshold", "grid": gi(), "gauss": [(1.0, al(), Z), (round(ctx.rng.uniform(0.3, 0.8), 3), al(), Z)],
+                                          "rmins": [ctx.rng.choice([0.0, 1e-10]), ctx.rng.choice([0.99e-10, 1.01e-10, 1e-8, 1e-12, 1e-300])] if not big else [0.0, 1e-300, 1e-12, 0.99e-10, 1e-10, 1.01e-10, 1e-8],
+                                          "R": round(ctx.rng.uniform(1.0, 2.0), 3), "n0": ctx.rng.randrange(60, 81), "n_ivp": ctx.rng.randrange(120, 161),
+                                          "intervals": ([[ctx.rng.choice([990.0, 1010.0, 10.0, 1e5]), ctx.rng.choice([1e-5, 0.99e-5, 1.01e-5, 1e-3])]] if not big else
+                                                        [[990.0, 1e-5], [1010.0, 1e-5], [10.0, 1e-5], [1e5, 1e-5], [1000, 0.99e-5], [1000, 1.01e-5], [1000, 1e-3]]),
+                                          "dB": round(ctx.rng.choice([-1, 1]) * ctx.rng.uniform(0.3, 2.0), 3)}))
     for _, sp in out:
         sp["seed"] = ctx.rng.randrange(10**6)
     return [(k, sp) for k, sp in out if only is None or sp["scenario"] in only]
@@ -1546,17 +2260,17 @@ def oracle_at(ctx: Ctx, failure):
     obs = ctx.extra.setdefault("oracle_at_observed", [])
     done = ctx.extra.setdefault("oracle_at_done", [])
     if key.startswith("poisson.interpolate_laplacian"):
-        want, inv = ["poisson.interpolate_laplacian"], ["grid", "dtype", "mol"]
+        want, inv = ["poisson.interpolate_laplacian"], ["grid", "dtype", "mol", "special", "scale"]
     elif key.startswith("poisson.solve_poisson_ivp"):
-        want, inv = ["poisson.solve_poisson_ivp"], ["funcvals", "params", "grid", "dtype"]
+        want, inv = ["poisson.solve_poisson_ivp"], ["funcvals", "params", "grid", "dtype", "threshold", "scale", "special"]
     elif key.startswith("robust_poisson"):
-        want, inv = ["robust_poisson"], ["funcvals", "dtype"]
+        want, inv = ["robust_poisson"], ["funcvals", "dtype", "special", "translate"]
     elif key.startswith("poisson.solve_poisson_bvp") or key.startswith("poisson:"):
         mol = ":molecular" in key or key.endswith((":slices", ":sum", ":atoms"))
         want = ["poisson.solve_poisson_bvp:molecular"] if mol else ["poisson.solve_poisson_bvp"]
-        inv = ["mol"] if mol else ["funcvals", "params", "grid", "extreme"]
+        inv = ["mol", "translate"] if mol else ["funcvals", "params", "grid", "extreme", "threshold", "special"]
         if key.endswith((":options", ":bd_cond", ":mesh", ":defaults")):
-            inv = ["params", "extreme", "grid"]
+            inv = ["params", "extreme", "grid", "threshold", "special"]
     else:
         return
     tagk = [want, inv]
